@@ -123,6 +123,16 @@ def dumpWorld (s : Sess) : String :=
   "{" ++ s!"\"ops\":{jsonList (w.ops.toList.map dumpOp)},\"links\":{links},\"dreg\":{dreg}," ++
     s!"\"circs\":{jsonList (s.circs.toList.map toString)}" ++ "}"
 
+/-- Where the code evaluates `has_relation` of a group (latest-of) link it computes end times, and raises
+    `RecursionError` when the relation structure is cyclic.  The listing does so for every node it visits;
+    `multiDefined` is that guard: every group link met by the (recursive) listing of `c` has a defined reference. -/
+def multiDefined (w : World) : Nat → Nat → Bool
+  | 0, _ => true
+  | f+1, c =>
+    (listing (w.op c).graph).all (fun n =>
+      ((!(w.lnk (w.op n).link).multi) || (w.lnk (w.op n).link).refs.isEmpty || (w.refOf (w.op n).link).isSome) &&
+      ((!(w.op n).isComp) || multiDefined w f n))
+
 def step (s : Sess) (toks : List String) : Sess × String :=
   let bad := (s, "bad-op")
   match toks with
@@ -153,19 +163,29 @@ def step (s : Sess) (toks : List String) : Sess × String :=
           tag.toNat?, reg.toNat?, parseList parseOptInt? ints with
     | some c, some cls, some qs, some chan, some dur, some tag, some reg, some ints =>
       if c ≥ s.circs.size || reg ≥ s.regs.size then bad else
-      let relSpec : Option (Option (Nat × Rel)) :=
-        if rel == "-" then some none else
+      -- `-` no relation | `h:T` fresh single link | `h:SAME` the link object handle h carries | `mh1+h2:T` group link
+      let relSpec : Option (World × Nat) :=
+        if rel == "-" then some (s.w.newLink {}) else
         match rel.splitOn ":" with
-        | [h, r] => match h.toNat?, parseRel? r with
-          | some h, some r => if h < s.handles.size then some (some (s.handles[h]!, r)) else none
-          | _, _ => none
+        | [h, r] =>
+          if h.startsWith "m" then
+            match ((h.drop 1).toString.splitOn "+").mapM String.toNat?, parseRel? r with
+            | some hs, some rt =>
+              if hs.all (· < s.handles.size) then
+                some (s.w.newLink { multi := true, refs := hs.map (fun h => s.handles[h]!), rel := rt })
+              else none
+            | _, _ => none
+          else match h.toNat? with
+            | some h =>
+              if h < s.handles.size then
+                if r == "SAME" then some (s.w, (s.w.op s.handles[h]!).link)
+                else (parseRel? r).map (fun rt => s.w.newLink { refs := [s.handles[h]!], rel := rt })
+              else none
+            | none => none
         | _ => none
       match relSpec with
       | none => bad
-      | some relSpec =>
-        let (w, l) := match relSpec with
-          | none => s.w.newLink {}
-          | some (r, rt) => s.w.newLink { refs := [r], rel := rt }
+      | some (w, l) =>
         let (w, o) := w.newOp {
           cls := cls, qs := qs, chan := chan, dur := dur.getD cls.defaultDur, link := l, tag := tag,
           reg := s.regs[reg]!, ints := ints }
@@ -236,5 +256,27 @@ def step (s : Sess) (toks : List String) : Sess × String :=
   | ["collisions"] => (s, toString s.w.collisions)
   | ["identkeys"] => ({ s with w := { s.w with identKeys := true } }, "ok")
   | _ => bad
+
+/-- commands whose implementation walks the (mutating) listing of circuit `c` (first argument). -/
+def listingCommands : List String := ["list", "ops", "flatten", "copyobs", "plot"]
+
+/-- the definedness guard around a command interpreter: once a build step or a listing needed an undefined
+    (cyclic) reference — where the code raises `RecursionError` — every answer is `undef` (sticky). -/
+def guarded (inner : Sess → List String → Sess × String) (s : Sess) (toks : List String) : Sess × String :=
+  match toks with
+  | ["reset"] => inner s toks
+  | _ =>
+    if s.w.undef then (s, "undef") else
+    let guardOk : Bool := match toks with
+      | cmd :: c :: _ =>
+        if listingCommands.contains cmd then
+          match c.toNat? with
+          | some c => if c < s.circs.size then multiDefined s.w s.w.depthFuel s.circs[c]! else true
+          | none => true
+        else true
+      | _ => true
+    if !guardOk then ({ s with w := { s.w with undef := true } }, "undef") else
+    let (s', ans) := inner s toks
+    if s'.w.undef then (s', "undef") else (s', ans)
 
 end Qco.Driver
